@@ -1023,9 +1023,21 @@ where
 
     let boundary_vertices = build_boundary_vertex_set(tds, facet_to_cells)?;
 
+    // Collect every vertex star by scanning the cells once. The star of a pinched vertex is not
+    // connected through shared facets, so a neighbour walk from `incident_cell` would only see
+    // one of its components and accept exactly the defect this check exists to find.
+    let mut stars: FastHashMap<VertexKey, SmallBuffer<CellKey, 8>> =
+        fast_hash_map_with_capacity(tds.number_of_vertices());
+    for (cell_key, cell) in tds.cells() {
+        for &vertex_key in cell.vertices() {
+            stars.entry(vertex_key).or_default().push(cell_key);
+        }
+    }
+
     for (vertex_key, _vertex) in tds.vertices() {
         let interior_vertex = !boundary_vertices.contains(&vertex_key);
-        validate_single_vertex_link(tds, vertex_key, interior_vertex)?;
+        let star_cells = stars.get(&vertex_key).map_or(&[][..], |star| &star[..]);
+        validate_single_vertex_link_with_star(tds, vertex_key, interior_vertex, star_cells)?;
     }
 
     Ok(())
@@ -1172,6 +1184,7 @@ fn validate_vertex_link_d2(
     }
 }
 
+#[cfg(test)]
 fn validate_single_vertex_link<T, U, V, const D: usize>(
     tds: &Tds<T, U, V, D>,
     vertex_key: VertexKey,
@@ -1182,8 +1195,25 @@ where
     U: DataType,
     V: DataType,
 {
-    // Collect the star of the vertex.
-    let star_cells = simplex_star_cells(tds, &[vertex_key])?;
+    // Collect the star of the vertex by a full scan (see `validate_vertex_links`).
+    let star_cells: SmallBuffer<CellKey, 8> = tds
+        .cells()
+        .filter_map(|(cell_key, cell)| cell.contains_vertex(vertex_key).then_some(cell_key))
+        .collect();
+    validate_single_vertex_link_with_star(tds, vertex_key, interior_vertex, &star_cells)
+}
+
+fn validate_single_vertex_link_with_star<T, U, V, const D: usize>(
+    tds: &Tds<T, U, V, D>,
+    vertex_key: VertexKey,
+    interior_vertex: bool,
+    star_cells: &[CellKey],
+) -> Result<(), ManifoldError>
+where
+    T: CoordinateScalar,
+    U: DataType,
+    V: DataType,
+{
     if star_cells.is_empty() {
         // A vertex with empty star violates purity for a non-empty triangulation.
         return Err(ManifoldError::VertexLinkNotManifold {
@@ -1197,7 +1227,7 @@ where
         });
     }
 
-    let link_simplices = simplex_link_simplices_from_star(tds, &[vertex_key], &star_cells)?;
+    let link_simplices = simplex_link_simplices_from_star(tds, &[vertex_key], star_cells)?;
 
     // D=1: the link is a 0-manifold (S^0 for interior vertices, B^0 for boundary vertices).
     if D == 1 {
